@@ -101,6 +101,7 @@ class Func:
                 self.defaults[p.arg] = d
         self._locals = None
         self._globals_decl = None
+        self._nonlocal_decl = None
         self.is_property = any(isinstance(d, ast.Name) and d.id == 'property' for d in node.decorator_list)
 
     @property
@@ -132,6 +133,23 @@ class Func:
         return self._globals_decl
 
     @property
+    def nonlocal_decl(self):
+        if self._nonlocal_decl is None:
+            g = set()
+            for n in self.body_nodes():
+                if isinstance(n, ast.Nonlocal):
+                    g.update(n.names)
+            self._nonlocal_decl = g
+        return self._nonlocal_decl
+
+    def rebound_by_nested(self):
+        """names of this function that a nested function re-binds through `nonlocal`"""
+        out = set()
+        for g in self.nested.values():
+            out |= g.nonlocal_decl | g.rebound_by_nested()
+        return out
+
+    @property
     def locals(self):
         if self._locals is None:
             names = set(self.all_params())
@@ -141,6 +159,7 @@ class Func:
                 elif isinstance(n, (ast.FunctionDef, ast.ClassDef)) and n is not self.node:
                     names.add(n.name)
             names -= self.globals_decl
+            names -= self.nonlocal_decl
             self._locals = names
         return self._locals
 
@@ -550,7 +569,15 @@ class Project:
 
     def local_assignments(self, func, name):
         out = []
-        for n in func.body_nodes():
+        nodes = list(func.body_nodes())
+        todo = list(func.nested.values())
+        while todo:
+            g = todo.pop()
+            if name in g.nonlocal_decl:
+                nodes += list(g.body_nodes())
+            if name not in g.locals:
+                todo += list(g.nested.values())
+        for n in nodes:
             if isinstance(n, ast.Assign):
                 for t in n.targets:
                     if isinstance(t, ast.Name) and t.id == name:
